@@ -845,7 +845,7 @@ pub fn l_icmp4(cx: &mut Cx, s: &Icmpv4Slice) -> NLayer {
     l.p("ty", s.type_u8());
     l.p("code", s.code_u8());
     l.p("csum", s.checksum());
-    l.blob("b58", &s.bytes5to8());
+    l.blob("~b58", &s.bytes5to8());
     l.pu("~slice_len", s.slice().len());
     l.pu("~pay_off", cx.off(s.payload(), "Icmpv4Slice::payload"));
     l.pu("~pay_len", s.payload().len());
@@ -859,7 +859,6 @@ pub fn l_icmp4_hdr(h: &Icmpv4Header) -> NLayer {
     l.p("ty", b[0]);
     l.p("code", b[1]);
     l.p("csum", h.checksum);
-    l.blob("b58", &b[4..8]);
     l
 }
 
@@ -869,7 +868,7 @@ pub fn l_icmp6(cx: &mut Cx, s: &Icmpv6Slice) -> NLayer {
     l.p("ty", s.type_u8());
     l.p("code", s.code_u8());
     l.p("csum", s.checksum());
-    l.blob("b58", &s.bytes5to8());
+    l.blob("~b58", &s.bytes5to8());
     l.pu("~slice_len", s.slice().len());
     l.pu("~pay_off", cx.off(s.payload(), "Icmpv6Slice::payload"));
     l.pu("~pay_len", s.payload().len());
@@ -883,7 +882,6 @@ pub fn l_icmp6_hdr(h: &Icmpv6Header) -> NLayer {
     l.p("ty", b[0]);
     l.p("code", b[1]);
     l.p("csum", h.checksum);
-    l.blob("b58", &b[4..8]);
     l
 }
 
